@@ -380,6 +380,16 @@ class Engine:
         self.paths = 0
         self.covered_exits = 0
         st = State()
+        if contract.extra.get("defaults"):
+            # the default values the contract declares (used at call sites that leave the argument out) must be the ones in the source
+            a = self.fn.args
+            src_defaults = {}
+            for arg, d in zip(a.args[len(a.args) - len(a.defaults):], a.defaults):
+                if isinstance(d, ast.Constant):
+                    src_defaults[arg.arg] = d.value
+            for n, v in contract.extra["defaults"].items():
+                if n not in src_defaults or src_defaults[n] != v:
+                    raise Unsupported("default value of parameter %s is %r in the source, %r in the contract" % (n, src_defaults.get(n), v))
         self.slice_ordinal = contract.extra.get("loop_slice")
         if self.slice_ordinal is not None:
             # LOOP-BODY CONTRACT: the unit under verification is loop k of the function; its free variables are the contract's params (arbitrary values
@@ -880,7 +890,7 @@ class Engine:
                 return i
         raise Unsupported("loop not found")
 
-    def assigned_in(self, stmts):
+    def assigned_in(self, stmts, receivers=None):
         names, fields, calls = set(), set(), []
         for s in stmts:
             for n in ast.walk(s):
@@ -893,7 +903,10 @@ class Engine:
                     calls.append(n)
                     # method calls that mutate their receiver in place
                     if isinstance(n.func, ast.Attribute) and n.func.attr in MUTATING_METHODS:
-                        self._targets(n.func.value, names, fields)
+                        if receivers is not None and isinstance(n.func.value, ast.Name):
+                            receivers.add(n.func.value.id)       # recorded apart: only a CONTAINER held in that name changes value by such a call
+                        else:
+                            self._targets(n.func.value, names, fields)
                 elif isinstance(n, (ast.Yield,)):
                     names.add("__yielded__")
         return names, fields, calls
@@ -913,7 +926,11 @@ class Engine:
             self._targets(t.value, names, fields)
 
     def havoc_for_loop(self, st, body_stmts, extra_names=(), spec=None):
-        names, fields, calls = self.assigned_in(body_stmts)
+        receivers = set()
+        names, fields, calls = self.assigned_in(body_stmts, receivers)
+        # x.append(...) / x.write(...): the NAME x is rebound (value semantics) only when it holds a container; an object reference or a model object keeps
+        # its identity (the object's fields are havocked through `modifies`)
+        names |= {n for n in receivers if not isinstance(st.env.get(n), VRef)}
         names |= set(extra_names)
         # names the loop contract declares as not rebound by the body although the syntactic scan cannot tell (e.g. `ws[i].write(x)` on a list of
         # objects): not havocked; run_loop checks after every body path that the variable still holds the very same value
